@@ -180,15 +180,18 @@ func (ex *Exec) checkFrame(st *State, p *PtrV, pos token.Pos) {
 			}
 		}
 	}
-	if top.Spec == nil || top.Spec.ModAll || ex.pure != nil {
-		return
-	}
-	if st.Fresh[p.Ref] {
+	if top.Spec == nil || ex.pure != nil {
 		return
 	}
 	class := p.Class
 	if len(p.Path) > 0 && p.Path[0].Field >= 0 {
 		class = p.Class + "." + fieldName(p.RT, p.Path[0].Field)
+	}
+	if top.Spec.ModAll && !(len(ex.Specs.StrictFields) > 0 && isGhostClass(class)) {
+		return
+	}
+	if st.Fresh[p.Ref] {
+		return
 	}
 	var alts []*Term
 	alts = append(alts, Lt(top.EntryFull.Frontier, p.Ref))
